@@ -535,6 +535,8 @@ class Scheduler:
             assert job.type == other.type
             if other.state == JobState.ERROR:
                 logger.info("Re-submitting job")
+                self.xp.unfinishedJobs += 1
+                self.jobs[job.identifier] = job
             else:
                 logger.warning("Job %s already submitted", job.identifier)
                 return other
